@@ -306,7 +306,21 @@ def run(tier, replay):
         # the limits as configured reach the limiters: real dserver and the serverless connector (free-running, judged from the output)
         wiring_runs = e2e.stage_limits(wd, V, rng, tier)
         log("limit wiring: %d client runs (serverless and over SSH) with MaxConcurrentCats below the number of files" % wiring_runs)
-        cov = {"limit_wiring_runs": wiring_runs,
+        # the slots of a session come back when its connection ends, whatever was done on it (real server, bare SSH client)
+        wov = {"internal/server/vcommon_test.go": ("common/vcommon_test.go", "server"),
+               "internal/server/c14_test.go": "server/c14_test.go", "internal/server/c13_wire_test.go": "server/c13_wire_test.go"}
+        wo = os.path.join(wd, "wire.json")
+        rc, out = vlib.go_test(wd, "./internal/server", wov, "TestC13Wire", env={"VERIF_OUT": wo}, timeout=900)
+        if rc != 0 or not os.path.exists(wo):
+            raise vlib.Inconclusive("C13 wire harness failed\n" + out[-2000:])
+        wire = json.load(open(wo))
+        for w in wire:
+            if w.get("bad"):
+                V.violation(w["bad"], w)
+            elif w.get("problem"):
+                V.diverge("wire case %s could not be run: %s" % (w["case"], w["problem"]))
+        log("session endings over SSH (MaxConcurrentTails = 1): %s" % ", ".join("%s:%s" % (w["case"], "bad" if w.get("bad") else "problem" if w.get("problem") else "ok") for w in wire))
+        cov = {"limit_wiring_runs": wiring_runs, "session_endings_over_ssh": wire,
             "states": states, "transitions": transitions,
             "traces_validated_against_impl": validated,
             "traces_accepted_by_strict_model": len(accepted_strict),
